@@ -4,9 +4,12 @@
 seed=$1; prop=$2; tier=${3:-quick}
 cd /verif
 git -C /repo apply $seed/patch.diff || { echo "APPLY-FAILED $seed"; exit 2; }
+# the evidence file of a run on a mutated tree must not replace the one from the unchanged tree
+cp evidence/$prop.json /tmp/evidence_backup_$prop.json 2>/dev/null
 start=$(date +%s)
 ./bin/vcheck run $prop --tier $tier > /tmp/try_$(basename $seed)_$prop.log 2>&1
 rc=$?
 end=$(date +%s)
 git -C /repo checkout -- .
+cp /tmp/evidence_backup_$prop.json evidence/$prop.json 2>/dev/null
 echo "$(basename $seed) on $prop ($tier): exit=$rc in $((end-start))s : $(grep -m2 'VIOLATION\|UNDECIDED' /tmp/try_$(basename $seed)_$prop.log | cut -c1-160 | tr '\n' '|')"
